@@ -110,7 +110,9 @@ func TestCheck(t *testing.T) {
 		tailWait:   time.Duration(r.N(25, 60)) * time.Millisecond,
 		graceWait:  2 * time.Millisecond,
 		samples:    map[string]bool{},
+		viols:      map[string]*pendingViolation{},
 	}
+	defer e.flushViolations()
 
 	reps := r.N(8, 16)
 	nShapes := r.N(1, 5)
@@ -184,7 +186,7 @@ func TestCheck(t *testing.T) {
 	r.Require("judged_family:doh-get-short-param", int64(50*nShapes))
 	r.Require("upstream_judged:udp", int64(r.N(300, 3000)))
 	r.Require("upstream_judged:tcp", int64(r.N(300, 3000)))
-	r.Require("upstream_ok_equal_to_own_bytes", int64(r.N(100, 1000)))
+	r.Require("upstream_control_ok_equal_to_own_bytes", int64(r.N(20, 200)))
 	r.Require("upstream_error_for_undecodable_reply", int64(r.N(200, 2000)))
 	r.Require("upstream_differential", int64(r.N(100, 400)))
 }
@@ -362,7 +364,7 @@ func (e *env) judgeOther(path, role string, w, raw []byte) {
 		wit["response"] = resp.String()
 	}
 
-	e.r.Violation(keyFor(path, ex, ps), "a well-formed message sent between probes was not answered from its own bytes: "+ps[0].what, wit)
+	e.violation(keyFor(path, ex, ps), "a well-formed message sent between probes was not answered from its own bytes: "+ps[0].what, wit)
 }
 
 // ---------------------------------------------------------------------------
@@ -470,9 +472,14 @@ func (e *env) evaluate(p *pathDef, pp *probe, bt *built, px *pexp, o *observatio
 			bad = true
 			wit := e.witness(p, pp, bt, px, o, meta)
 			wit["response_hex"] = hex.EncodeToString(raw)
-			e.r.Violation(p.name+":invalid-framing-answered",
-				"the transport framing of the request is invalid ("+px.reject+"), yet a DNS response came back", wit)
-			parts = append(parts, "answer-to-invalid-framing")
+			if px.reject != "" {
+				e.violation(p.name+":invalid-framing-answered",
+					"the transport framing of the request is invalid ("+px.reject+"), yet a DNS response came back", wit)
+			} else {
+				e.violation(p.name+":incomplete-message-answered",
+					"the bytes sent never made up a complete message (the announced length was not reached), yet a DNS response came back", wit)
+			}
+			parts = append(parts, "answer-without-a-message")
 
 			continue
 		}
@@ -503,10 +510,15 @@ func (e *env) evaluate(p *pathDef, pp *probe, bt *built, px *pexp, o *observatio
 			wit["response"] = resp.String()
 		}
 
-		e.r.Violation(keyFor(p.name, f.exp, ps), ps[0].what, wit)
+		e.violation(keyFor(p.name, f.exp, ps), ps[0].what, wit)
 	}
 
 	switch {
+	case px.closes:
+		// The server is documented to close this stream because of one of
+		// its frames; whether the other frames are answered before that is a
+		// race inside the server, so the outcome has one class only.
+		class = "stream-with-unservable-frame(closed; answers to its other frames optional)"
 	case len(parts) > 0:
 		sort.Strings(parts)
 		class = "answered[" + strings.Join(parts, " | ") + "]"
@@ -545,7 +557,7 @@ func (e *env) lateJudge(p *pathDef) func(ls *lateSock, raw []byte) {
 			wit["response"] = resp.String()
 		}
 
-		e.r.Violation(keyFor(p.name, f.exp, ps), ps[0].what, wit)
+		e.violation(keyFor(p.name, f.exp, ps), ps[0].what, wit)
 	}
 }
 
@@ -578,7 +590,16 @@ func (e *env) differential(
 	wit["outcome_warmed"] = class
 	wit["outcome_fresh"] = fr.class
 	wit["observed_fresh"] = fr.detail
-	e.r.Violation(p.name+":warmed-differs-from-fresh",
+	key := p.name + ":warmed-differs-from-fresh"
+	for _, f := range px.frames {
+		if f.exp.extSensitive {
+			// The meaning of these bytes changes when other bytes follow
+			// them in memory, and the treatment did change with the history.
+			key = p.name + ":message-decoded-beyond-its-own-bytes"
+		}
+	}
+
+	e.violation(key,
 		"the same message is treated differently by a listener that has served other traffic and by one started anew", wit)
 }
 
